@@ -414,6 +414,100 @@ def free_run(proto, n, target=None):
     return {"out": outs, "notes": target.after()}
 
 
+SLOW_MOD = """
+import hashlib, time
+import passlib.utils.handlers as uh
+time.sleep({delay})
+class c19_slow_hash(uh.StaticHandler):
+    name = "c19_slow_hash"
+    checksum_chars = uh.LOWER_HEX_CHARS
+    checksum_size = 32
+    def _calc_checksum(self, secret):
+        if isinstance(secret, str):
+            secret = secret.encode("utf-8")
+        return hashlib.md5(secret).hexdigest()
+time.sleep({delay})
+"""
+
+
+def slow_run(proto, n, delay=0.15):
+    """real threads, the initialisation made slow through the public API (a waiting onload callback, a waiting character map, a module
+    whose import waits), the other threads released while the first one is inside it.  Call it in a forked child.
+    Every thread must get the single-thread result; the initialisation must run once."""
+    import tempfile
+    import shutil
+
+    sys.setswitchinterval(1e-5)
+    calls = []
+    tmp = None
+    if proto in ("ctx", "ctxOnload"):
+        from passlib.context import LazyCryptContext
+
+        def onload(**kwds):
+            calls.append(1)
+            time.sleep(delay)
+            return dict(schemes=["md5_crypt"])
+
+        def schemes_iter():
+            time.sleep(delay)
+            yield "md5_crypt"
+
+        obj = LazyCryptContext(schemes=["des_crypt"], onload=onload) if proto == "ctxOnload" else LazyCryptContext(schemes=schemes_iter())
+
+        def call(i):
+            r = tuple(obj.schemes()) if i % 2 == 0 else (obj.identify("$1$saltsalt$qjXMvbEw8oaL.CzflDtaK/"),)
+            return "ok" if r == ("md5_crypt",) else f"wrong:{r!r}"
+    elif proto == "eng":
+        from passlib.utils.binary import HASH64_CHARS, Base64Engine, LazyBase64Engine
+
+        class SlowStr(str):
+            def encode(self, *a, **k):
+                time.sleep(delay)
+                return str.encode(self, *a, **k)
+
+        ref = Base64Engine(HASH64_CHARS).encode_bytes(b"abc")
+        obj = LazyBase64Engine(SlowStr(HASH64_CHARS))
+
+        def call(i):
+            r = obj.encode_bytes(b"abc") if i % 2 == 0 else obj.decode_bytes(ref)
+            return "ok" if r in (ref, b"abc") else f"wrong:{r!r}"
+    elif proto == "reg":
+        from passlib import registry
+
+        tmp = tempfile.mkdtemp(prefix="c19slow_")
+        with open(os.path.join(tmp, "c19_slowmod.py"), "w") as fh:
+            fh.write(SLOW_MOD.format(delay=delay))
+        sys.path.insert(0, tmp)
+        registry.register_crypt_handler_path("c19_slow_hash", "c19_slowmod")
+
+        def call(i):
+            h = registry.get_crypt_handler("c19_slow_hash")
+            return "ok" if getattr(h, "name", None) == "c19_slow_hash" and h.verify("pw", h.hash("pw")) else f"wrong:{h!r}"
+    else:
+        return {"out": [], "notes": [], "skipped": True}
+    outs = ["-"] * n
+
+    def body(i):
+        if i:
+            time.sleep(delay * (0.3 + 0.5 * i / n))       # land inside the first thread's initialisation
+        try:
+            outs[i] = call(i)
+        except BaseException as e:  # noqa: BLE001
+            outs[i] = canon_exc(e) + ": " + str(e)[:120]
+
+    ths = [threading.Thread(target=body, args=(i,)) for i in range(n)]
+    for th in ths:
+        th.start()
+    for th in ths:
+        th.join(60)
+    notes = []
+    if proto == "ctxOnload" and len(calls) != 1:
+        notes.append(f"onload called {len(calls)} times")
+    if tmp:
+        shutil.rmtree(tmp, ignore_errors=True)
+    return {"out": outs, "notes": notes}
+
+
 # ---------------------------------------------------------------------------------------------------------------------
 # worker process: one protocol, many schedules (each in a forked child)
 # ---------------------------------------------------------------------------------------------------------------------
@@ -431,6 +525,8 @@ def worker_main():
         out["runs"].append(forked(lambda sch=sch: scheduled_run(proto, req["n"], sch, req["points"], target=Target(proto))))
     for _ in range(req.get("free", 0)):
         out["free"].append(forked(lambda: free_run(proto, req.get("free_n", 8), target=Target(proto))))
+    for _ in range(req.get("slow", 0)):
+        out.setdefault("slow", []).append(forked(lambda: slow_run(proto, req.get("slow_n", 4))))
     json.dump(out, sys.stdout)
 
 
